@@ -6,6 +6,7 @@ import Sigc.Adapt
 import Sigc.Visit
 import Sigc.Types
 import Sigc.SlotG
+import Sigc.SweepL
 
 /-!
   `sigc_model <mode>` — line-protocol driver of the Lean models.
@@ -60,6 +61,7 @@ def main (args : List String) : IO UInt32 := do
   | ["types"] => mapLines stdin Sigc.Types.processLine; return 0
   | ["run"]   => runPrograms stdin Sigc.Model.runProgram; return 0
   | ["slotg"] => runPrograms stdin Sigc.SlotG.runProgram; return 0
+  | ["sweepl"] => runPrograms stdin Sigc.SweepL.runProgram; return 0
   | ["spec"]  => runPrograms stdin (Sigc.Spec.runProgram false false); return 0
   | ["clear"] =>
     -- per program: is the run clear of the known findings K1/K2 (hypothesis `SpecK.clearTop` of the end-to-end
@@ -72,5 +74,5 @@ def main (args : List String) : IO UInt32 := do
   | ["spec-k1"] => runPrograms stdin (Sigc.Spec.runProgram true false); return 0
   | ["spec-k2"] => runPrograms stdin (Sigc.Spec.runProgram false true); return 0
   | _ =>
-    IO.eprintln "usage: sigc_model trk|adapt|visit|types|run|spec|slotg  < cases"
+    IO.eprintln "usage: sigc_model trk|adapt|visit|types|run|spec|slotg|sweepl  < cases"
     return 2
